@@ -48,7 +48,7 @@ def run(ctx):
     ctx.distinct += len({(e["op"], e["size"], e["f"], e["pmin"], e["x"], e["pre"], e["swap"]) for e in allev})
     # 3. wide tier
     wp = ctx.path("wide.ndjson")
-    ctx.run_bin("c32", ["wide", "--seed", ctx.seed, "--n", 150 if q else 1500, "--out", wp])
+    ctx.run_bin("c32", ["wide", "--seed", ctx.seed, "--n", 150 if q else 500, "--out", wp])
     wev = vlib.read_ndjson(wp)
     res = vlib.apalache_events(ctx, "Wide_BuilderFee", ["BuilderFee", "Num"], wev, SCHEMA, "CInit128",
                                {"bad": ["EvOK"], "drift": ["EvConf"]}, chunk=250)
